@@ -104,6 +104,8 @@ pub trait AOps: Archetype + Sized {
     /// `dst.<arch>.clone_from(&src.<arch>)` (Clone::clone_from at archetype level)
     fn arch_clone_from(dst: &mut VW, src: &VW);
     fn preset(w: &mut VW, slot: u32, arch: u32);
+    /// take a runtime-borrow guard on column `col` and leak it (`mem::forget`): the RefCell stays borrowed
+    fn leak_guard(w: &VW, col: usize, mutable: bool);
 }
 
 /// Key-generic paths (typed or dynamic, entity or direct key).
@@ -384,6 +386,16 @@ macro_rules! aops {
             #[cfg(feature = "events")]
             fn clear_ev(w: &mut VW) { w.$f.clear_events() }
             fn preset(w: &mut VW, slot: u32, arch: u32) { w.$f.data.verif_preset_versions(slot, arch) }
+            #[allow(unused_assignments)]
+            fn leak_guard(w: &VW, col: usize, mutable: bool) {
+                let mut i = 0usize;
+                $(
+                    if i == col {
+                        if mutable { std::mem::forget(w.$f.borrow_slice_mut::<$T>()); } else { std::mem::forget(w.$f.borrow_slice::<$T>()); }
+                    }
+                    i += 1;
+                )*
+            }
         }
 
         atyped!($A, $f, Entity<$A>, [$($T $c),*]);
